@@ -57,3 +57,60 @@ pub fn run(a: &Args) {
     println!("log={}", log.iter().map(|(t, l)| format!("{}:{}", if *t == usize::MAX { 99 } else { *t }, l)).collect::<Vec<_>>().join(","));
     std::process::exit(0);
 }
+
+/// C10 release slice: a successor takes the name while its predecessor is still inside post_stop (the name was released when the predecessor began to stop);
+/// the predecessor's later exit steps must not remove the successor's entry.
+pub fn name_reuse(_a: &Args) {
+    use ractor::{Actor, ActorProcessingErr, ActorRef};
+    use std::sync::Arc;
+    struct Slow {
+        gate: Arc<tokio::sync::Notify>,
+    }
+    impl Actor for Slow {
+        type Msg = ();
+        type State = ();
+        type Arguments = ();
+        async fn pre_start(&self, _: ActorRef<()>, _: ()) -> Result<(), ActorProcessingErr> {
+            Ok(())
+        }
+        async fn post_stop(&self, _: ActorRef<()>, _: &mut ()) -> Result<(), ActorProcessingErr> {
+            self.gate.notified().await;
+            Ok(())
+        }
+    }
+    let rt = tokio::runtime::Builder::new_multi_thread().worker_threads(2).enable_all().build().unwrap();
+    let name = format!("c10-reuse-{}", std::process::id());
+    rt.block_on(async {
+        let gate_a = Arc::new(tokio::sync::Notify::new());
+        let gate_b = Arc::new(tokio::sync::Notify::new());
+        let (a, ha) = Actor::spawn(Some(name.clone()), Slow { gate: gate_a.clone() }, ()).await.unwrap();
+        a.stop(None);
+        for _ in 0..2000 {
+            if ractor::registry::where_is(name.clone()).is_none() && a.get_status() == ractor::ActorStatus::Stopping {
+                break;
+            }
+            tokio::time::sleep(std::time::Duration::from_millis(1)).await;
+        }
+        println!("predecessor_status={}", a.get_status() as u8);
+        let b = Actor::spawn(Some(name.clone()), Slow { gate: gate_b.clone() }, ()).await;
+        println!("successor_spawned={}", b.is_ok() as u8);
+        gate_a.notify_one();
+        let _ = tokio::time::timeout(std::time::Duration::from_secs(3), ha).await;
+        println!("predecessor_final={}", a.get_status() as u8);
+        if let Ok((b, hb)) = b {
+            let found = ractor::registry::where_is(name.clone());
+            println!("lookup_is_successor={}", found.map(|c| c.get_id() == b.get_id()).unwrap_or(false) as u8);
+            let third = Actor::spawn(Some(name.clone()), Slow { gate: gate_b.clone() }, ()).await;
+            println!("third_spawn_rejected={}", third.is_err() as u8);
+            if let Ok((c, hc)) = third {
+                c.stop(None);
+                gate_b.notify_one();
+                let _ = tokio::time::timeout(std::time::Duration::from_secs(2), hc).await;
+            }
+            b.stop(None);
+            gate_b.notify_one();
+            gate_b.notify_one();
+            let _ = tokio::time::timeout(std::time::Duration::from_secs(2), hb).await;
+        }
+    });
+}
